@@ -103,7 +103,7 @@ def claim_packet(kind, src):
     return (wire.actisense_line(6, 60928, src, 255, data) + "\r\n").encode()
 
 
-def fault_session(kind, fault, step, settle=40.0, scb="ok", second=None, mapping=False, bystander=False):
+def fault_session(kind, fault, step, settle=40.0, scb="ok", second=None, mapping=False, bystander=False, cb_style="method"):
     """second = (fault kind, virtual seconds after the start) injects another fault after the first recovery."""
     info = {"injected": False, "inject_step": None, "inject_time": None, "conn_at_fault": None, "second_injected": False}
 
@@ -170,7 +170,7 @@ def fault_session(kind, fault, step, settle=40.0, scb="ok", second=None, mapping
         info["elapsed"] = loop.time() - 1000.0
         info["ticks"] = sim.heartbeat_ticks
         await sim.call("close")
-    sim, stats = simgw.run_session(kind, scenario, status_cb=scb, client_kwargs={"build_network_map": True} if mapping else None, bystander=bystander)
+    sim, stats = simgw.run_session(kind, scenario, status_cb=scb, client_kwargs={"build_network_map": True} if mapping else None, bystander=bystander, cb_style=cb_style)
     return sim, stats, info
 
 
@@ -479,7 +479,8 @@ def run_shard(spec, acc):
         seconds = ["reset", "eof"]
     for k_, step in enumerate(steps):
         by = k_ % 3 == 2            # every third session: an untouched second client in the same process must not notice anything
-        sim, stats, info = fault_session(kind, fault, step, scb=scb, mapping=mapping, settle=50.0 if fault == "busy_reply" else 40.0, bystander=by)
+        sim, stats, info = fault_session(kind, fault, step, scb=scb, mapping=mapping, settle=50.0 if fault == "busy_reply" else 40.0, bystander=by,
+                                        cb_style=("method", "object", "lambda", "partial")[k_ % 4])
         check_recovery(sim, stats, info, acc, kind, fault, step, scb)
         if by and sim is not None and not stats["error"]:
             simgw.judge_bystander(sim, acc, {"client": kind, "fault": fault, "step": step, "status_cb": scb})
